@@ -54,6 +54,36 @@ Definition shape_of_typ (t : str) : option shape :=
   | None => None
   end.
 
+(* Literal['a', 'b', ...] over two or more strings: the choices, when the parser rebuilds exactly this text *)
+Fixpoint all_strs (vs : list pyval) : option (list str) :=
+  match vs with
+  | [] => Some []
+  | VStr s :: r => option_map (cons s) (all_strs r)
+  | _ :: _ => None
+  end.
+
+Definition literal_text (cs : list str) : str :=
+  L "Literal[" ++ join (L ", ") (map (fun c => sq :: c ++ [sq]) cs) ++ L "]".
+
+(* text set_value leaves as it is *)
+Definition sv_stable (s : str) : bool := negb (both_ends dq s) && negb (both_ends sq s).
+
+Definition literal_of_typ (t : str) : option (list str) :=
+  match resolve_plan t with
+  | Some s =>
+    match rs_typ s, rs_choices s, rs_action s, rs_required s with
+    | Some T, Some vs, None, None =>
+      match all_strs vs with
+      | Some cs =>
+        if str_eqb T (L "str") && Nat.leb 2 (List.length cs) && forallb sv_stable cs && str_eqb (literal_text cs) t
+        then Some cs else None
+      | None => None
+      end
+    | _, _, _, _ => None
+    end
+  | None => None
+  end.
+
 (* ================= the keywords of one add_argument call ================= *)
 
 Definition kws_of (typ2 : option str) (choices : option (list pyval)) (action1 : option str) (help : option str)
@@ -71,9 +101,6 @@ Definition kws_of (typ2 : option str) (choices : option (list pyval)) (action1 :
 Definition option_arg (n : str) : list expr := [EConst (VStr (L "--" ++ n))].
 
 (* ================= guard ================= *)
-
-(* text set_value leaves as it is *)
-Definition sv_stable (s : str) : bool := negb (both_ends dq s) && negb (both_ends sq s).
 
 Definition help_ok_C04 (g : gparam) : bool :=
   match prose_of g with
@@ -93,11 +120,21 @@ Definition default_ok_C04 (sh : shape) (d : option dval) : bool :=
   | Some _ => false
   end.
 
+(* a str default that travels unchanged *)
+Definition str_default_ok_C04 (d : option dval) : bool :=
+  match d with
+  | Some (DV (VStr s)) => sv_stable s && negb (code_quoted s) && negb (in_none_types (VStr s))
+  | _ => false
+  end.
+
 Definition gparam_ok_C04 (g : gparam) : bool :=
   match g_typ g with
   | Has t => match shape_of_typ t with
              | Some sh => help_ok_C04 g && default_ok_C04 sh (g_default g)
-             | None => false
+             | None => match literal_of_typ t with
+                       | Some _ => help_ok_C04 g && str_default_ok_C04 (g_default g)
+                       | None => false
+                       end
              end
   | _ => false
   end.
@@ -119,11 +156,8 @@ Definition no_carried_body_C04 (i : ir) : bool :=
 Definition doc_ok_C04 (i : ir) : bool :=
   match ir_doc i with Has d => sv_stable d | _ => false end.
 
-Definition names_ok_C04 (i : ir) : bool :=
-  names_distinct (map fst (ir_params i)).
-
 Definition guard_C04_ast (i : ir) : bool :=
-  names_ok_C04 i && forallb param_ok_C04 (ir_params i) && return_ok_C04 i && no_carried_body_C04 i && doc_ok_C04 i.
+  C04_domain i && forallb param_ok_C04 (ir_params i) && return_ok_C04 i && no_carried_body_C04 i && doc_ok_C04 i.
 
 (* ================= the closed form of what comes back ================= *)
 
@@ -145,7 +179,7 @@ Definition norm_param_C04 (rd : bool) (g : gparam) : gparam :=
            | None => if sh_optional sh then (if rd then Some (DV (VStr NoneStr)) else None)
                      else Some (zero_dval (sh_T sh))
            end)
-    | None => g
+    | None => mkG (help_fld g) (Has t) (g_default g)         (* Literal[...]: the default is explicit *)
     end
   | _ => g
   end.
